@@ -39,7 +39,7 @@ def main(tier):
             run.violation(f"{nm}: attributes differ between layouts: {a['meta']} vs {b['meta']}", {"kind": "meta", "insn": nm, "rs": a["meta"], "ec": b["meta"]}, key="meta")
         for i, src in enumerate(beh[nm]):
             pairs.append((f"{nm}#{i}", src, a["rzil"][i], b["rzil"][i], None, nm))
-    gi = outfamily.generated_items(run.seed, tier, "wf")
+    gi = outfamily.generated_items(run.seed, tier, "layouts")
     gres = {l: S.compile_stmts([dict(text=it["text"], layout=l, subs=it.get("subs", [])) for it in gi]) for l in layouts}
     for k, it in enumerate(gi):
         a, b = gres["rs"][k], gres["ec"][k]
